@@ -178,6 +178,12 @@ def coerce(v, t):
         return V(TInt, z3.If(v.z, 1, 0))
     if t is TFloat and v.t is TInt:
         return V(TFloat, z3.Const(fresh_name('flt'), TFloat.sort()), py=('intfloat', v.z))
+    if t is TInt and v.t is TFloat:
+        # a float stored where the contract declares a number: float arithmetic is not modelled, the stored
+        # number is arbitrary (stated assumption: "int(float) / float results are arbitrary numbers")
+        if v.py and v.py[0] == 'intfloat':
+            return V(TInt, v.py[1])
+        return V(TInt, z3.Int(fresh_name('num_of_float')))
     if isinstance(t, TPkt) and isinstance(v.t, TPkt):
         return V(t, v.z)
     if isinstance(t, TRef) and isinstance(v.t, TPkt) and t.cls == 'pkt:' + v.t.layers[0]:
